@@ -40,6 +40,9 @@ def updateExistingKeys {α : Type} (defaults : List (String × α)) (kwargs : Li
     otherwise the text must be a number -/
 inductive NodataArg | null | number (text : String) | invalid deriving Repr, DecidableEq
 
+/-- the number parser of `_nodata_cb`: Python's `float` - a double, so the value reaches the API as typed -/
+def nodataParser : String := "float"
+
 def nodataCb (lowered : Option String) (isNumber : String → Bool) : NodataArg :=
   match lowered with
   | none => .null
@@ -57,5 +60,22 @@ def outPostfix (procUpper modelUpper : String) (kh kw : Nat) (ext : String) : St
 
 /-- `create_param_filename`: `<stem>_PARAM<suffix>` next to the corrected file -/
 def paramFilename (stem suffix : String) : String := stem ++ "_PARAM" ++ suffix
+
+/-- the steps by which `RasterFuse` turns the caller's `out_profile` into the profile of an output file, and the configuration into
+    tags: the caller's dictionary is only read (a fresh one is built from it by `create_out_profile`), `combine_profiles` returns a
+    new dictionary, the parameter image's float32 / NaN / 3n-band encoding is forced on that merged copy, and every configuration
+    value (also `None`) becomes a `FUSE_*` tag -/
+inductive ProfileStep
+  | initFromProcImage | initFromSource | freshOutProfile | combineIntoNew | forceParamEncodingOnMerged | countFromBands
+  | everyConfigKeyTagged | srcRefProcTagged
+  deriving Repr, DecidableEq
+
+def paramProfileSteps : List ProfileStep := [.initFromProcImage, .freshOutProfile, .combineIntoNew, .forceParamEncodingOnMerged]
+def corrProfileSteps : List ProfileStep := [.initFromSource, .freshOutProfile, .combineIntoNew, .countFromBands]
+def metaTagSteps : List ProfileStep := [.everyConfigKeyTagged, .srcRefProcTagged]
+
+/-- options of a command that its per-source loop re-binds: none in `fuse`; `compare` unpacks the per-source band selection -/
+def fuseLoopRebinds : List String := []
+def compareLoopRebinds : List String := ["src_bands"]
 
 end Homonim
